@@ -3,3 +3,5 @@
 pub mod common;
 pub mod gen;
 pub mod scen_build;
+#[cfg(feature = "hooks")]
+pub mod scen_hook;
